@@ -981,6 +981,30 @@ def install_time(ex):
             return r if c.endswith('eq') else b_not(r)
         return NotImplemented
     add(r'<(?:jiff::)?Timestamp as PartialEq>::(eq|ne)', ts_eq)
+    def ts_cmp_val(ex, x, y):
+        # lexicographic on (seconds, nanoseconds), decided by forking like the derived Ord
+        if ex.branch(b_lt(x.sec, y.sec), 'ts sec lt'):
+            return -1
+        if ex.branch(b_lt(y.sec, x.sec), 'ts sec gt'):
+            return 1
+        if ex.branch(b_lt(x.nanos, y.nanos), 'ts ns lt'):
+            return -1
+        if ex.branch(b_lt(y.nanos, x.nanos), 'ts ns gt'):
+            return 1
+        return 0
+
+    def ts_cmp(ex, c, a):
+        x, y = deref(a[0]), deref(a[1])
+        if not (isinstance(x, TimeV) and isinstance(y, TimeV)):
+            return NotImplemented
+        v = ts_cmp_val(ex, x, y)
+        op = c.rsplit('::', 1)[1]
+        if op == 'partial_cmp':
+            return M.some(M.ordering(v))
+        if op == 'cmp':
+            return M.ordering(v)
+        return {'lt': v < 0, 'le': v <= 0, 'gt': v > 0, 'ge': v >= 0}[op]
+    add(r'<(?:jiff::)?Timestamp as (?:PartialOrd|Ord)>::(partial_cmp|cmp|lt|le|gt|ge)', ts_cmp)
     add(r'<(?:jiff::)?Timestamp as Clone>::clone', lambda ex, c, a: deref(a[0]))
     add(r'i32::cast_unsigned|core::num::<impl i32>::cast_unsigned', lambda ex, c, a: wrap(a[0], 'u32'))
 
